@@ -131,7 +131,7 @@ func (w *World) analyse(op string, nowNs int64, token string) (a analysis) {
 	}
 	ps := make([]string, len(w.provs))
 	for i, p := range w.provs {
-		ps[i] = fmt.Sprintf("%s:%s:%s:%s:%s:%s:%s:%s:%s:%s", p.Ty, c.X(p.Name), c.X(p.Kid), c.X(p.ClientID), c.X(p.Issuer),
+		ps[i] = fmt.Sprintf("%s:%s:%s:%s:x:%s:%s:%s:%s:%s:%s", p.Ty, c.X(p.Name), c.X(p.Kid), c.X(p.ClientID), c.X(p.Issuer),
 			c.X(fragEsc(p.tokenID())), c.B(p.Init), c.B(p.SSH), c.B(p.DisableRenewal), c.B(p.RenewAfterExpiry))
 	}
 	fmt.Fprintf(&sb, " hosts=%s provs=%s", c.List(hs), c.List(ps))
